@@ -47,6 +47,9 @@ type nameSpace struct {
 	esc           escaper
 	// pristine holds copies of parse trees taken before their first in-place rewrite.
 	pristine map[string]*parse.Tree
+	// steps counts the template nodes visited by the analysis started by the current
+	// Execute call.
+	steps int
 }
 
 // Templates returns a slice of the templates associated with t, including t
